@@ -7,6 +7,6 @@ for id in $ids; do
   for seed in 1 2; do
     out=$d/check-$id-seed$seed.txt
     MUT_LINES=8 /verif/tools/mutrun.sh $d/patch.diff $id $seed > $out 2>&1
-    if grep -q "^ *[0-9]* VIOLATION" $out; then echo "$(basename $d) $id seed$seed: DETECTED $(grep -m1 'violation' $out | cut -c1-150)"; break; else echo "$(basename $d) $id seed$seed: not detected ($(grep -m1 'check ' $out | cut -c1-120))"; fi
+    if grep -q "^VIOLATION" $out; then echo "$(basename $d) $id seed$seed: DETECTED $(grep -m1 'violation' $out | cut -c1-150)"; break; else echo "$(basename $d) $id seed$seed: not detected ($(grep -m1 'check ' $out | cut -c1-120))"; fi
   done
 done
